@@ -273,3 +273,246 @@ func ruleTimeoutConfig(rule string) ruleFn {
 		c.Floor(rule, 10)
 	}
 }
+
+// ---------------------------------------------------------------------------
+// *-ALIASWRITE: a container handed out by a getter is not modified in place
+// ---------------------------------------------------------------------------
+
+// ruleAliasWrite: `func (c *Controller) ListReplicas() []types.Replica { return c.replicas }` hands
+// out the controller's own backing array.  Filtering it with the `kept := xs[:0]; kept = append(kept,
+// x)` idiom, sorting it, or storing into its elements rewrites the shared array behind the owner's
+// back (the owner's length stays, entries vanish or appear twice) - also from a read-only request.
+func ruleAliasWrite(rule string) ruleFn {
+	return func(c *Ctx) {
+		c.Doc(rule, "module-wide: the slice or map a getter hands out from a lock-protected field (Controller.ListReplicas / ListQuorumReplicas, …) is read-only for everybody but the owner: it never flows - through re-slicing, phis, or parameters of the functions it is passed to - into the destination of append, copy, an element store, a map update / delete or a sort")
+		nSrc := 0
+		type item struct {
+			v     ssa.Value
+			fn    *ssa.Function
+			depth int
+			src   string
+		}
+		var work []item
+		for _, fn := range prodFns(c.P) {
+			fn := fn
+			eachInstr(fn, func(in ssa.Instruction) {
+				cl, ok := in.(*ssa.Call)
+				if !ok {
+					return
+				}
+				if fa, ok := guardedLoadField(cl); ok {
+					nSrc++
+					work = append(work, item{cl, fn, 0, CalleeName(cl) + " (hands out " + fieldKeyOf(fa) + ")"})
+				}
+			})
+		}
+		seen := map[ssa.Value]bool{}
+		nChecked := 0
+		for len(work) > 0 {
+			it := work[0]
+			work = work[1:]
+			if seen[it.v] {
+				continue
+			}
+			seen[it.v] = true
+			refs := it.v.Referrers()
+			if refs == nil {
+				continue
+			}
+			for _, r := range *refs {
+				nChecked++
+				key := FnName(it.fn) + " | container from " + it.src + " is not written"
+				bad := func(what string) {
+					c.Bad(rule, key, c.P.InstrPos(r), what+": the owner's backing array / map is rewritten behind its back", nil)
+				}
+				switch x := r.(type) {
+				case *ssa.Slice:
+					if x.X == it.v {
+						work = append(work, item{x, it.fn, it.depth, it.src})
+					}
+				case *ssa.Phi:
+					work = append(work, item{x, it.fn, it.depth, it.src})
+				case *ssa.ChangeType:
+					work = append(work, item{x, it.fn, it.depth, it.src})
+				case *ssa.MakeInterface:
+					work = append(work, item{x, it.fn, it.depth, it.src})
+				case *ssa.IndexAddr:
+					if x.X != it.v {
+						continue
+					}
+					// a store through the element address (directly or to a field of the element)
+					var chase func(a ssa.Value, d int)
+					chase = func(a ssa.Value, d int) {
+						if d > 3 || a.Referrers() == nil {
+							return
+						}
+						for _, u := range *a.Referrers() {
+							switch y := u.(type) {
+							case *ssa.Store:
+								if y.Addr == a {
+									bad("an element is assigned")
+								}
+							case *ssa.FieldAddr:
+								chase(y, d+1)
+							case *ssa.IndexAddr:
+								if y.X == a {
+									chase(y, d+1)
+								}
+							}
+						}
+					}
+					chase(x, 0)
+				case *ssa.MapUpdate:
+					if x.Map == it.v {
+						bad("a map entry is assigned")
+					}
+				case *ssa.Store:
+					// stored into a local / field: follow loads of a local
+					if al, ok := x.Addr.(*ssa.Alloc); ok && x.Val == it.v && al.Referrers() != nil {
+						for _, u := range *al.Referrers() {
+							if ld, ok := u.(*ssa.UnOp); ok {
+								work = append(work, item{ld, it.fn, it.depth, it.src})
+							}
+						}
+					}
+				case ssa.CallInstruction:
+					cc := x.Common()
+					if b, ok := cc.Value.(*ssa.Builtin); ok {
+						switch b.Name() {
+						case "append":
+							if len(cc.Args) > 0 && cc.Args[0] == it.v {
+								bad("append writes into it")
+							}
+						case "copy":
+							if len(cc.Args) > 0 && cc.Args[0] == it.v {
+								bad("copy writes into it")
+							}
+						case "delete":
+							if len(cc.Args) > 0 && cc.Args[0] == it.v {
+								bad("delete removes an entry")
+							}
+						}
+						continue
+					}
+					n := CalleeName(x)
+					if strings.HasPrefix(n, "sort.") || strings.HasPrefix(n, "slices.Sort") || n == "slices.Reverse" {
+						bad(n + " reorders it")
+						continue
+					}
+					h := cc.StaticCallee()
+					if h == nil || h.Blocks == nil || !isJivaFn(h) || it.depth >= 3 || cc.IsInvoke() {
+						continue
+					}
+					for i, a := range cc.Args {
+						if a == it.v && i < len(h.Params) {
+							work = append(work, item{h.Params[i], h, it.depth + 1, it.src})
+						}
+					}
+				}
+			}
+		}
+		if nSrc < 4 {
+			c.Undecided(rule, "vacuity-floor", "", fmt.Sprintf("only %d calls of container getters found", nSrc))
+		} else {
+			c.OK(rule, "module | getter results followed", "", fmt.Sprintf("%d getter calls, %d uses inspected", nSrc, nChecked), true)
+		}
+	}
+}
+
+// ---------------------------------------------------------------------------
+// *-TRYLOCK: nobody answers from a remembered copy because a lock was busy
+// ---------------------------------------------------------------------------
+
+func ruleNoTryLock(rule string) ruleFn {
+	return func(c *Ctx) {
+		c.Doc(rule, "module-wide: jiva takes its locks unconditionally; a TryLock / TryRLock with a fall-back branch answers a request from state that was not read under the lock (a remembered checkpoint after the controller withdrew it, a remembered replica state while a state-changing operation holds the server lock and the request then runs in the new state)")
+		n := 0
+		for _, fn := range prodFns(c.P) {
+			n++
+			eachInstr(fn, func(in ssa.Instruction) {
+				if _, ok := in.(ssa.CallInstruction); !ok {
+					return
+				}
+				switch CalleeName(in) {
+				case "(*sync.RWMutex).TryRLock", "(*sync.RWMutex).TryLock", "(*sync.Mutex).TryLock":
+					c.Bad(rule, FnName(fn)+" | "+CalleeName(in), c.P.InstrPos(in), "conditional acquisition: on the busy branch the function works without the lock", nil)
+				}
+			})
+		}
+		if n < 400 {
+			c.Undecided(rule, "vacuity-floor", "", fmt.Sprintf("only %d functions scanned", n))
+		} else {
+			c.OK(rule, "module | no conditional lock acquisition", "", fmt.Sprintf("%d functions scanned", n), false)
+		}
+	}
+}
+
+// ---------------------------------------------------------------------------
+// C17-CLOSEDNIL: a closed Replica never stays installed in the server
+// ---------------------------------------------------------------------------
+
+// ruleClosedNil: state "closed" is `s.r == nil`.  Every gate of the server (Status, ping, the
+// nil tests of the operations, SetReplicaMode) reads it that way, so once the installed instance
+// was closed successfully no exit of the function may leave it installed - whatever happens to
+// the steps that follow the close (a failed unlink in Delete / DeleteAll).
+func ruleClosedNil(rule string) ruleFn {
+	return func(c *Ctx) {
+		c.Doc(rule, "replica.Server: after the installed Replica (the current value of s.r) was closed successfully - by s.r.Close() or by the success of CheckPreDeleteConditions, which closes it - every return of the method is preceded by a store to s.r (nil, or a new instance): a closed instance left in s.r reports state open / dirty, answers ping, passes the nil gates and can be switched back to RW")
+		n := 0
+		isSRStore := func(in ssa.Instruction) bool {
+			st, ok := in.(*ssa.Store)
+			if !ok {
+				return false
+			}
+			t, f, _ := fieldAddrOf(st.Addr)
+			return t == "Server" && f == "r"
+		}
+		pd := c.P.Fn(fSrv + "CheckPreDeleteConditions")
+		// the helper closes s.r on every success return
+		if pd != nil {
+			c.Guard(rule, pd, nilErrorReturns(pd), "return nil", nil, okcall(fRep+"Close"))
+			n++
+		} else {
+			c.Anchor(rule, fSrv+"CheckPreDeleteConditions")
+		}
+		for _, fn := range c.P.methodsOf("replica", "Server") {
+			if fn == pd || fn.Blocks == nil {
+				continue
+			}
+			var closes []ssa.Instruction
+			for _, in := range CallsTo(fn, fRep+"Close") {
+				cl, ok := in.(*ssa.Call)
+				if !ok || len(cl.Call.Args) == 0 {
+					continue
+				}
+				ld, ok := strip(cl.Call.Args[0]).(*ssa.UnOp)
+				if !ok {
+					continue
+				}
+				if t, f, _ := fieldAddrOf(ld.X); t != "Server" || f != "r" {
+					continue
+				}
+				// the value closed is still the installed one: no store to s.r between the load and the call
+				if len(Query{Fn: fn, Start: ld, IsSite: func(x ssa.Instruction) bool { return x == in }, Gen: isSRStore}.Run()) > 0 {
+					closes = append(closes, in)
+				}
+			}
+			if pd != nil {
+				closes = append(closes, CallsTo(fn, fSrv+"CheckPreDeleteConditions")...)
+			}
+			for i, cl := range closes {
+				n++
+				key := fmt.Sprintf("%s | after closing the installed replica[%d] s.r is replaced before return", FnName(fn), i)
+				ws := afterEdge(fn, successEdgesOfCall(fn, cl), isSRStore, nil, func(in ssa.Instruction) bool { _, ok := in.(*ssa.Return); return ok })
+				if len(ws) == 0 {
+					c.OK(rule, key, c.P.InstrPos(cl), "every exit after the close passes a store to s.r", true)
+				} else {
+					c.Bad(rule, key, c.P.InstrPos(ws[0].Site), "a return is reachable after the installed replica was closed with s.r still pointing at it", c.witness(ws[0]))
+				}
+			}
+		}
+		if n < 4 {
+			c.Undecided(rule, "vacuity-floor", "", fmt.Sprintf("only %d close sites of the installed replica found", n))
+		}
+	}
+}
